@@ -26,6 +26,12 @@ func (c *Client) LoginCallback(r *http.Request, cookie *openid.LoginCookie) (*op
 		return nil, fmt.Errorf("%w: %s", ErrCallbackInvalidCookie, "cookie is nil")
 	}
 
+	// the login, logout and session cookies share one encryption key: a ciphertext minted for another cookie type
+	// decodes into a LoginCookie that lacks the values the code redemption is bound to
+	if len(cookie.State) == 0 || len(cookie.CodeVerifier) == 0 || len(cookie.Nonce) == 0 || len(cookie.RedirectURI) == 0 {
+		return nil, fmt.Errorf("%w: %s", ErrCallbackInvalidCookie, "cookie is missing required values")
+	}
+
 	query := r.URL.Query()
 
 	if oauthError := query.Get("error"); len(oauthError) > 0 {
